@@ -111,3 +111,53 @@ contract("RelativeSequence.to_absolute_sequence", params={"self": "ref:RelativeS
              ("reached", f"implies(cap_message_exists and i > 0, exists(0, len({AS}), lambda j: {AS}[j].time == current_point_in_time))"),
          ])},
          props=["C04", "C16", "C11"])
+
+# ---------------------------------------------------------------- normalise_relative (C07: duration, wf; C04/C16: frame, fresh list)
+OUT = "messages_normalized"
+ALLOC = lambda L: f"forall(0, len({L}), lambda w: allocated({L}[w]))"
+NORM_DUR = f"wsum({OUT}, len({OUT}))"
+NORM_INV = [("own_list", f"fresh({OUT}) and allocated({OUT})"), ("wf", WF_REL(OUT)), ("allocated", ALLOC(OUT))]
+contract("RelativeSequence.normalise_relative", params={"self": "ref:RelativeSequence"}, allocates=True,
+         requires=[WF_REL()],
+         local_types={"open_messages": "absdict:absdict:list:ref:Message", OUT: "list:ref:Message"},
+         dict_inv={"open_messages": "lambda v: forall(0, len(v), lambda q: not is_none(v[q].message_type) and v[q].message_type == MessageType.NOTE_ON)"},
+         modifies={"_messages": "[self]"},
+         ensures=[("duration_unchanged", f"wsum({M}, len({M})) == old(wsum({M}, len({M})))"),
+                  ("wf", WF_REL() + f" and fresh({M})")],
+         loops={
+             "L0": dict(fingerprint="for msg in self._messages", inv=NORM_INV + [
+                 ("duration", f"{NORM_DUR} + wait_buffer == wsum({M}, i) and wait_buffer >= 0"),
+                 ("unvisited", f"forall(0, len({OUT}), lambda a: forall(i, len({M}), lambda b: {OUT}[a] != {M}[b]))")]),
+             "L1": dict(fingerprint="for channel in open_messages.keys()", inv=NORM_INV + [("duration", f"{NORM_DUR} == entry({NORM_DUR})")]),
+             "L2": dict(fingerprint="for key in open_messages[channel].keys()", inv=NORM_INV + [("duration", f"{NORM_DUR} == entry({NORM_DUR})")]),
+             "L3": dict(fingerprint="for msg in note_list", inv=NORM_INV + [("duration", f"{NORM_DUR} == entry({NORM_DUR})")]),
+         },
+         props=["C07", "C04", "C16"])
+
+# ---------------------------------------------------------------- split (C08: source untouched, piece count; C16: pieces are built from fresh objects only)
+FRESHL = lambda L: f"allocated({L}) and fresh({L}) and forall(0, len({L}), lambda w: fresh({L}[w]) and allocated({L}[w]) and not is_none({L}[w]))"
+FRESHSEQ = lambda s: f"not is_none({s}) and allocated({s}) and fresh({s}) and {FRESHL(s + '._messages')}"
+PIECES = lambda L: f"allocated({L}) and fresh({L}) and forall(0, len({L}), lambda p: {FRESHSEQ(L + '[p]')})"
+SEP = ("split_sequences != working_memory and split_sequences != current_sequence._messages and working_memory != current_sequence._messages"
+       " and forall(0, len(split_sequences), lambda p: split_sequences[p]._messages != split_sequences)")
+SEP_IN = ("split_sequences != next_sequence_queue and split_sequences != next_sequence._messages and working_memory != next_sequence_queue"
+          " and working_memory != next_sequence._messages")
+WAITS_TIMED = lambda L: f"forall(0, len({L}), lambda w: not is_none({L}[w].message_type) and implies({IS(L + '[w]', 'WAIT')}, not is_none({L}[w].time)))"
+SPLIT_INV = [("memory", FRESHL("working_memory")), ("memory_waits_timed", WAITS_TIMED("working_memory")), ("current", FRESHSEQ("current_sequence")), ("pieces", PIECES("split_sequences")), ("separate", SEP)]
+contract("RelativeSequence.split", params={"self": "ref:RelativeSequence", "capacities": "list:int"}, result="list:ref:RelativeSequence", allocates=True,
+         requires=[f"forall(0, len({M}), lambda w: not is_none({M}[w].message_type) and implies({IS(M + '[w]', 'WAIT')}, not is_none({M}[w].time)))"],
+         local_types={"open_messages": "absdict:ref:Message", "split_sequences": "list:ref:RelativeSequence", "next_sequence_queue": "list:ref:Message"},
+         dict_inv={"open_messages": "lambda v: not is_none(v)"},
+         modifies={},
+         ensures=[("pieces_are_fresh", PIECES("result")),
+                  ("at_most_one_more_than_capacities", "len(result) <= len(capacities) + 1")],
+         loops={
+             "L0": dict(fingerprint="for msg in self._messages", inv=[("built", f"len(_comp0) == i and {FRESHL('_comp0')}"),
+                                                                         ("typed", f"forall(0, i, lambda w: not is_none(_comp0[w].message_type) and implies({IS('_comp0[w]', 'WAIT')}, not is_none(_comp0[w].time)))")]),
+             "L1": dict(fingerprint="for capacity in capacities", inv=SPLIT_INV + [("count", "len(split_sequences) <= i")]),
+             "L2": dict(fingerprint="while remaining_capacity >= 0", dec="len(working_memory)", inv=SPLIT_INV + [
+                 ("next", FRESHSEQ("next_sequence")), ("queue", FRESHL("next_sequence_queue")), ("queue_waits_timed", WAITS_TIMED("next_sequence_queue")), ("separate_inner", SEP_IN), ("count", "len(split_sequences) <= loop_index('L1')")]),
+             "L3": dict(fingerprint="for (key, value) in open_messages.items()", inv=SPLIT_INV + [
+                 ("next", FRESHSEQ("next_sequence")), ("queue", FRESHL("next_sequence_queue")), ("queue_waits_timed", WAITS_TIMED("next_sequence_queue")), ("separate_inner", SEP_IN), ("count", "len(split_sequences) <= loop_index('L1')")]),
+         },
+         props=["C08", "C16"])
